@@ -15,7 +15,7 @@ LEVEL = "other"
 def run(chk):
     facts = F.load("dbg")
     env = Env(facts)
-    nmax = 9 if chk.tier == "quick" else 12
+    nmax = 12
     chk.trust("rand::thread_rng / RngCore::next_u64 return fresh uniformly distributed 64-bit draws from a thread-local generator (rand 0.8)")
     chk.trust("rustc MIR construction; std summaries")
     chk.assume("statistical independence of successive draws is a property of the rand crate")
